@@ -73,6 +73,8 @@ def leaf_value(role, path, shape, dtype, mode="norm"):
         v = (PRIMES[(role * 8 + u) % 32] + ar % 5) * (1 - 2 * (ar % 2))
     elif mode == "unit":      # domain of acos/asin/atanh-like functions: quarters in [-1, 1]
         v = ((u + ar) % 9) - 4
+    elif mode == "cmp":       # comparisons: values 0..2 so that ties, < and > all occur under every key
+        v = ((role + 1) * (u + ar) + role) % 3
     elif mode == "mid":       # operand of maximum/minimum/clamp_*: interleaved with self's values (2..23), key-dependent
         v = 3 + (2 * u + 3 * ar + 5 * role) % 17
     elif mode == "lo":        # lower bound of clamp: below, inside and above self's values depending on the position
@@ -384,6 +386,10 @@ def reflect_methods():
     return found, unknown, missing
 
 
+CMP_OPS = {"__lt__": operator.lt, "__le__": operator.le, "__gt__": operator.gt, "__ge__": operator.ge,
+           "__eq__": operator.eq, "__ne__": operator.ne}
+
+
 def bin_ref(op, kw):
     """(reference on leaves, in-place?, reflected?) for a binary spelling"""
     if op in BIN_DUNDER:
@@ -434,9 +440,11 @@ def expected_binary(case, dself, oden):
     default = kw.pop("default", None)
     if not dself:
         return ("unspecified", "empty tensordict (the property speaks about entries)")
-    if mixed_lazy(sspec, [o]):
+    if mixed_lazy(sspec, [o]) and op not in CMP_OPS:
         return ("unspecified", "lazy stack combined with a dense tensordict")
     ref, inplace, reflected = bin_ref(op, {k: v for k, v in kw.items()})
+    if case.get("swap"):        # the collection is the RIGHT operand of the python operator: left <op> self
+        ref = (lambda f: (lambda x, y: f(y, x)))(CMP_OPS[op])
     keys = list(dself)
     dflt = None
     if o["k"] in ("td", "dict"):
@@ -875,6 +883,8 @@ def core_usage(case, dens):
             # a batch-shaped / broadcastable tensor is an operand kind the property names (out-of-place, non-lazy)
             return wrapped and kinds_ok and bshape(case["self"]["bs"], o["shape"]) is not None
         if o["k"] == "td":
+            if case["op"] in CMP_OPS and keyrel(dens[0], dens[1]) == "same" and list(o["bs"]) == list(case["self"]["bs"]):
+                return True        # comparisons work across TensorDict / tensorclass / lazy stack on either side
             if o.get("kind", "td") != skind or keyrel(dens[0], dens[1]) != "same" or "default" in case.get("kw", {}):
                 return False
             if list(o["bs"]) == list(case["self"]["bs"]):
@@ -938,6 +948,8 @@ def run_case(case):
             if case.get("reduce") is not None:
                 k2["reduce"] = case["reduce"]
             r = f(*a, **k2)
+        elif case.get("call") == "operator":
+            r = CMP_OPS[op](args[0], obj) if case.get("swap") else CMP_OPS[op](obj, args[0])
         else:
             r = f(*args, **ikw)
         out["status"] = "ok"
@@ -954,6 +966,7 @@ def run_case(case):
         sig["inplace"] = bool(inplace)
         sig["tensor_nd"] = any(o["k"] == "t" and len(o["shape"]) > 0 for o in case["args"])
         sig["has_default"] = "default" in kw or "pad" in kw
+        sig["swap"] = bool(case.get("swap"))
     if fam == "reduce":
         sig["dim_kind"] = ("nodefault" if case["dim"] == "nodefault" else "none" if case["dim"] is None else
                            "feature" if case["dim"] == "feature" else "tuple" if isinstance(case["dim"], list) else "int")
@@ -1401,6 +1414,48 @@ def gen_reduce(rng, op=None, skind=None):
     return case
 
 
+PAIR_KINDS = ["td", "tc", "lazy", "py", "t"]
+
+
+def gen_compare_pair(rng, op=None, left=None, right=None, locked=None, mode=None):
+    """`left <op> right` through the python operator, for an ordered pair of operand kinds (one of them at least a
+    tensor collection); data with ties (mode cmp) or distinct primes per key (mode norm)"""
+    op = op or rng.choice(list(CMP_OPS))
+    while left is None or (left in ("py", "t") and right in ("py", "t")):
+        left, right = rng.choice(PAIR_KINDS), rng.choice(PAIR_KINDS)
+    mode = mode or rng.choice(["cmp", "cmp", "norm"])
+    swap = left in ("py", "t")
+    skind, okind = (right, left) if swap else (left, right)
+    dtype = rng.choice(["int64", "int64", "float32", "int32"])
+    bs = rng.choice([b for b in BATCHES if b] if "lazy" in (skind, okind) else BATCHES)
+    s = gen_tdspec(rng, 0, kind=skind, dtype=dtype, mode=mode, bs=bs)
+    if locked is not None:
+        s["locked"] = locked
+    if okind == "py":
+        o = {"k": "py", "v": rng.choice([1, 1, 2, 0, 1.0]) if mode == "cmp" else rng.choice([3, 7, 11, 13.0])}
+    elif okind == "t":
+        o = tensor_operand(rng, s["bs"], rng.choice(["t0", "tb", "tb", "tbc"]), dtype, 1, mode)
+    else:
+        o = variant_td(rng, s, rng.choice(["perm", "perm", "perm", "same", "extra", "missing"]), 1, okind, mode=mode)
+        if locked is not None:
+            o["locked"] = locked
+    return {"fam": "binary", "op": op, "self": s, "args": [o], "kw": {}, "call": "operator", "swap": swap}
+
+
+def compare_grid(rng):
+    """all six comparison operators x every ordered pair of operand kinds x locked / unlocked x ties / distinct"""
+    out = []
+    for op in CMP_OPS:
+        for left in PAIR_KINDS:
+            for right in PAIR_KINDS:
+                if left in ("py", "t") and right in ("py", "t"):
+                    continue
+                for locked in (False, True):
+                    for mode in ("cmp", "norm"):
+                        out.append(gen_compare_pair(rng, op, left, right, locked, mode))
+    return out
+
+
 def systematic_cases(rng, methods):
     """every spelling found by reflection is exercised in every run, on each container, with the operand kinds that
     make key pairing visible (independent of the seed except for the shapes drawn)"""
@@ -1426,7 +1481,9 @@ def random_cases(rng, n):
     out = []
     for _ in range(n):
         r = rng.random()
-        if r < 0.45:
+        if r < 0.08:
+            out.append(gen_compare_pair(rng))
+        elif r < 0.45:
             out.append(gen_binary(rng))
         elif r < 0.55:
             out.append(gen_unary(rng))
@@ -1525,6 +1582,13 @@ def dunder_ref(ans):
     return (lambda x, y: f(x, y)) if sf == "t" else (lambda x, y: f(y, x))
 
 
+def tc_dispatched(case):
+    """TensorDict.__lt__ & co hand the comparison over to a tensorclass right operand (`return other > self`)"""
+    o = case["args"][0]
+    return (case["op"] in CMP_OPS and not case.get("swap") and o["k"] == "td" and o.get("kind", "td") == "tc"
+            and case["self"].get("kind", "td") == "td")
+
+
 def model_lines(case):
     """protocol lines for one case (first the broadcast decision, then the pairing / reduction plan)"""
     fam, op = case["fam"], case["op"]
@@ -1549,6 +1613,8 @@ def model_lines(case):
         lines.append(sx([Sym("bcast"), list(s["bs"]), [_okind_sx(o) for o in case["args"]]]))
     if fam == "binary" and op in DUNDER_MODEL:
         lines.append(sx([Sym("dunder"), op]))
+    if fam == "binary" and tc_dispatched(case):
+        lines.append(sx([Sym("cmpdispatch"), op, Sym("tc")]))
     if fam == "binary":
         o = case["args"][0]
         if op in COMPARE and o["k"] in ("td", "dict"):
@@ -1603,6 +1669,12 @@ def eval_model(case, answers):
         dref = dunder_ref(answers.pop(0))
         if dref is None:
             return ("raise",)
+    cmp_ref = None
+    if fam == "binary" and tc_dispatched(case):
+        via = answers.pop(0)            # the operator the code applies to (other, self)
+        cmp_ref = (lambda f: (lambda x, y: f(y, x)))(CMP_OPS[via])
+    elif fam == "binary" and case.get("swap"):
+        cmp_ref = (lambda f: (lambda x, y: f(y, x)))(CMP_OPS[op])
     ans = answers[0]
     if ans in ("raise", "kind"):
         return ("raise",) if ans == "raise" else ("skip", "leaf meets nested node")
@@ -1632,7 +1704,7 @@ def eval_model(case, answers):
     out = {}
     try:
         if fam == "binary" and op in COMPARE and case["args"][0]["k"] in ("td", "dict"):
-            ref = bin_ref(op, {})[0]
+            ref = cmp_ref if cmp_ref is not None else bin_ref(op, {})[0]
 
             def walk(ct, path):
                 if ct[0] == "l":
@@ -1643,7 +1715,7 @@ def eval_model(case, answers):
             walk(ans[1], ())
         elif fam == "binary":
             kw = {k: v for k, v in case.get("kw", {}).items() if k != "default"}
-            ref = dref if dref is not None else bin_ref(op, kw)[0]
+            ref = dref if dref is not None else cmp_ref if cmp_ref is not None else bin_ref(op, kw)[0]
             fe = foreach_name(op) if (dref is None and not perleaf) else None
             swallow = op.rstrip("_") in ("clamp_max", "clamp_min")
             keys, xs, ys, lists = [], [], [], False
@@ -1856,6 +1928,41 @@ def check_views(R):
                               {"got": io[1], "want": want}, {"site": "utils.expand_as_right", "pattern": "none"})
 
 
+def check_dispatch(R):
+    """which comparison of a tensorclass RIGHT operand TensorDict.__xx__ / LazyStackedTensorDict.__xx__ invoke, observed
+    on a probe tensorclass whose six comparison methods record their calls, vs the model's tc_dispatch / lazy_dispatch"""
+    T = _imports()
+    torch = T["torch"]
+    cls = T["tensorclass"](type("C09Probe", (), {"__annotations__": {"a": object}}))
+    calls = []
+
+    def rec(name):
+        def f(self, other):
+            calls.append((name, id(other)))
+            return "probe-result"
+        return f
+    for n in CMP_OPS:
+        setattr(cls, n, rec(n))
+    probe = cls(a=torch.zeros(2), batch_size=[2])
+    td = T["TensorDict"]({"a": torch.ones(2)}, [2])
+    lazy = T["Lazy"].lazy_stack([T["TensorDict"]({"a": torch.ones(())}, []) for _ in range(2)], 0)
+    ans = R.model([sx([Sym("cmpdispatch"), n, Sym(k)]) for k in ("tc", "lazy") for n in CMP_OPS])
+    i = 0
+    for kind, left in (("tc", td), ("lazy", lazy)):
+        for n in CMP_OPS:
+            del calls[:]
+            r = call(getattr(left, n), probe)
+            io = [calls[0][0], calls[0][1] == id(left)] if (r == ("ok", "probe-result") and len(calls) == 1) else ["other", r[0]]
+            mo = [ans[i], True]
+            i += 1
+            R.case(("cmpdispatch", kind, n), nontrivial=True)
+            R.count("cmpdispatch:" + kind)
+            R.traces += 1
+            if io != mo:
+                R.mismatch("comparison dispatch through a tensorclass right operand", {"left": kind if kind == "lazy" else "td",
+                                                                                       "op": n}, io, mo)
+
+
 def main(R):
     R.rule = ("cases = corpus + every spelling found by reflection (x td/lazy/tensorclass x operand kinds) + random cases "
               "(45% binary, 10% unary, 20% ternary, 25% reductions); a case is distinct by its full JSON description and "
@@ -1890,6 +1997,7 @@ def main(R):
     reps = 1 if R.quick else 6
     for _ in range(reps):
         cases += systematic_cases(rng, found)
+        cases += compare_grid(rng)
     cases += random_cases(rng, 15000 if R.quick else 200000)
     results = []
     for c in cases:
@@ -1929,6 +2037,7 @@ def main(R):
                 R.mismatch("plan:" + c["fam"] + ":" + c["op"], c, d[0], d[1])
     if ok:
         check_views(R)
+        check_dispatch(R)
     R.extra["cases_with_model_plan"] = sum(1 for ix in idx if ix is not None)
 
 
